@@ -843,3 +843,82 @@ Proof.
 Qed.
 
 End Surface.
+
+(* --------------------------------------------- functions.remove_duplicates *)
+Lemma existsb_list_eqb k seen : existsb (list_eqb k) seen = true <-> In k seen.
+Proof.
+  rewrite existsb_exists. split.
+  - intros [x [Hx E]]. apply list_eqb_eq in E. subst. exact Hx.
+  - intros H. exists k. split; auto. apply list_eqb_eq. reflexivity.
+Qed.
+
+Lemma firsts_sound seen rows k r : In (k, r) (firsts seen rows) ->
+  In r rows /\ k = sort_row r /\ ~ In k seen.
+Proof.
+  revert seen. induction rows as [|r0 t IH]; simpl; intros seen H; [destruct H|].
+  destruct (existsb (list_eqb (sort_row r0)) seen) eqn:E.
+  - destruct (IH _ H) as [A [B C]]. auto.
+  - destruct H as [H|H].
+    + inversion H; subst. split; auto. split; auto.
+      intros Hin. apply existsb_list_eqb in Hin. congruence.
+    + destruct (IH _ H) as [A [B C]]. split; auto. split; auto. intros Hin. apply C. right. exact Hin.
+Qed.
+
+Lemma firsts_complete seen rows r : In r rows ->
+  In (sort_row r) seen \/ exists r', In (sort_row r, r') (firsts seen rows).
+Proof.
+  revert seen. induction rows as [|r0 t IH]; simpl; intros seen H; [destruct H|].
+  destruct (existsb (list_eqb (sort_row r0)) seen) eqn:E.
+  - destruct H as [H|H]; [subst; left; apply existsb_list_eqb; exact E | apply IH; exact H].
+  - destruct H as [H|H]; [subst; right; eexists; left; reflexivity|].
+    destruct (IH (sort_row r0 :: seen) H) as [[A|A]|[r' A]].
+    + right. exists r0. left. rewrite A. reflexivity.
+    + left. exact A.
+    + right. exists r'. right. exact A.
+Qed.
+
+Lemma firsts_NoDup seen rows : NoDup (map fst (firsts seen rows)).
+Proof.
+  revert seen. induction rows as [|r0 t IH]; simpl; intros seen; [constructor|].
+  destruct (existsb (list_eqb (sort_row r0)) seen); [apply IH|].
+  simpl. constructor; [|apply IH]. intros Hin. apply in_map_iff in Hin.
+  destruct Hin as [[k r] [E H]]. simpl in E; subst k.
+  destruct (firsts_sound _ _ _ _ H) as [_ [_ C]]. apply C. left. reflexivity.
+Qed.
+
+Lemma insert_lex_perm x l : Permutation (x :: l) (insert_lex x l).
+Proof.
+  induction l as [|y t IH]; simpl; [reflexivity|].
+  destruct (lex_cmp (fst x) (fst y)); try reflexivity.
+  rewrite perm_swap. constructor. exact IH.
+Qed.
+
+Lemma sort_lex_perm l : Permutation l (fold_right insert_lex [] l).
+Proof.
+  induction l as [|x t IH]; simpl; [constructor|]. rewrite <- insert_lex_perm. constructor. exact IH.
+Qed.
+
+(* exactly one row per distinct sorted row: every input row is represented,
+   every output row is an input row, no two output rows have the same nodes *)
+Theorem remove_duplicates_spec rows :
+  (forall r, In r rows -> exists r', In r' (remove_duplicates rows) /\ sort_row r' = sort_row r) /\
+  (forall r', In r' (remove_duplicates rows) -> In r' rows) /\
+  NoDup (map sort_row (remove_duplicates rows)).
+Proof.
+  unfold remove_duplicates.
+  pose proof (sort_lex_perm (firsts [] rows)) as P.
+  split; [|split].
+  - intros r Hr. destruct (firsts_complete [] rows r Hr) as [[]|[r' H]].
+    exists r'. split.
+    + apply in_map_iff. exists (sort_row r, r'). split; auto. eapply Permutation_in; eauto.
+    + destruct (firsts_sound _ _ _ _ H) as [_ [E _]]. auto.
+  - intros r' H. apply in_map_iff in H. destruct H as [[k r] [E H]]. simpl in E; subst r.
+    apply (Permutation_in _ (Permutation_sym P)) in H. apply firsts_sound in H. tauto.
+  - rewrite map_map.
+    assert (E : map (fun x => sort_row (snd x)) (fold_right insert_lex [] (firsts [] rows)) =
+                map fst (fold_right insert_lex [] (firsts [] rows))).
+    { apply map_ext_in. intros [k r] H. simpl.
+      apply (Permutation_in _ (Permutation_sym P)) in H. apply firsts_sound in H.
+      destruct H as [_ [E _]]. auto. }
+    rewrite E. eapply Permutation_NoDup; [apply Permutation_map; exact P|apply firsts_NoDup].
+Qed.
